@@ -8,6 +8,7 @@ import (
 	"net/url"
 	"path"
 	"strings"
+	"sync"
 	"time"
 
 	"github.com/AdguardTeam/AdGuardDNS/internal/agdcache"
@@ -97,8 +98,15 @@ type cacheItem struct {
 // Filter is a filter that matches hosts by their hashes based on a hash-prefix
 // table.  It should be initially refreshed with [Filter.RefreshInitial].
 type Filter struct {
-	logger   *slog.Logger
-	cloner   *dnsmsg.Cloner
+	logger *slog.Logger
+	cloner *dnsmsg.Cloner
+
+	// resMu makes sure that a result computed from the previous hashes cannot
+	// be added to the result cache after the cache has been cleared by a
+	// refresh.  It is held for reading while matching and caching and for
+	// writing while resetting the hashes and clearing the cache.
+	resMu *sync.RWMutex
+
 	hashes   *Storage
 	refr     *refreshable.Refreshable
 	errColl  errcoll.Interface
@@ -133,6 +141,7 @@ func NewFilter(c *FilterConfig) (f *Filter, err error) {
 		hashes:   c.Hashes,
 		errColl:  c.ErrColl,
 		metrics:  c.Metrics,
+		resMu:    &sync.RWMutex{},
 		resCache: resCache,
 		id:       id,
 	}
@@ -198,6 +207,9 @@ func (f *Filter) match(
 	qt dnsmsg.RRType,
 	cl dnsmsg.Class,
 ) (matched string) {
+	f.resMu.RLock()
+	defer f.resMu.RUnlock()
+
 	cacheKey := internal.NewCacheKey(host, qt, cl, false)
 	item, ok := f.itemFromCache(ctx, cacheKey, host)
 	f.updateCacheLookupsMetrics(ok)
@@ -405,6 +417,9 @@ func (f *Filter) refresh(ctx context.Context, acceptStale bool) (err error) {
 		// Don't wrap the error, because it's informative enough as is.
 		return err
 	}
+
+	f.resMu.Lock()
+	defer f.resMu.Unlock()
 
 	count, err = f.hashes.Reset(text)
 	if err != nil {
